@@ -26,6 +26,7 @@ const (
 	vrtPath      = "github.com/mandykoh/prism/zverif/vrt"
 	vsyncPath    = "github.com/mandykoh/prism/zverif/vsync"
 	vatomicPath  = "github.com/mandykoh/prism/zverif/vatomic"
+	vchanPath    = "github.com/mandykoh/prism/zverif/vchan"
 	parallelPath = "github.com/mandykoh/prism/zverif/parallel"
 )
 
@@ -42,21 +43,24 @@ type Stats struct {
 	GoStatements   int
 	SyncImports    int
 	FieldHooks     int // accesses to plain fields of structs that carry a sync object
+	ChanOps        int // channel sends, receives, ranges, closes and lens rewritten to the channel model
 	AtomicImports  int
 	Uninstrumented []string // constructs the rewriter saw but could not hook
-	Channels       []string // channel operations, sync.Cond and sync.Map uses in instrumented packages (not modelled)
+	Channels       []string // select statements, sync.Cond and sync.Map uses in instrumented packages (not modelled)
 	ResetPackages  []string
 }
 
 type rewriter struct {
-	fset    *token.FileSet
-	pkg     *packages.Package
-	globals map[*types.Var]bool // hooked package-level vars (any package)
-	locals  map[*types.Var]bool
-	elems   map[*types.Var]bool // slice/array variables whose elements are assigned somewhere
-	handled map[ast.Node]bool
-	stats   *Stats
-	usedVrt bool
+	fset      *token.FileSet
+	pkg       *packages.Package
+	globals   map[*types.Var]bool // hooked package-level vars (any package)
+	locals    map[*types.Var]bool
+	elems     map[*types.Var]bool // slice/array variables whose elements are assigned somewhere
+	handled   map[ast.Node]bool
+	stats     *Stats
+	usedVrt   bool
+	usedVchan bool
+	recv2     map[ast.Node]bool // <-ch expressions that are the single right-hand side of a two-value assignment
 }
 
 func isImageType(t types.Type) bool {
@@ -149,7 +153,18 @@ func (rw *rewriter) file(f *ast.File) {
 	info := rw.pkg.TypesInfo
 	pre := func(c *astutil.Cursor) bool {
 		switch n := c.Node().(type) {
+		case *ast.ValueSpec:
+			if len(n.Names) == 2 && len(n.Values) == 1 {
+				if u, ok := ast.Unparen(n.Values[0]).(*ast.UnaryExpr); ok && u.Op == token.ARROW {
+					rw.recv2[u] = true
+				}
+			}
 		case *ast.AssignStmt:
+			if len(n.Lhs) == 2 && len(n.Rhs) == 1 {
+				if u, ok := ast.Unparen(n.Rhs[0]).(*ast.UnaryExpr); ok && u.Op == token.ARROW {
+					rw.recv2[u] = true
+				}
+			}
 			if n.Tok == token.DEFINE {
 				for _, l := range n.Lhs {
 					if rw.hookedIdent(l) != nil {
@@ -266,6 +281,48 @@ func (rw *rewriter) file(f *ast.File) {
 	}
 	post := func(c *astutil.Cursor) bool {
 		switch n := c.Node().(type) {
+		case *ast.SendStmt:
+			if !chanModelOn {
+				return true
+			}
+			c.Replace(&ast.ExprStmt{X: &ast.CallExpr{Fun: &ast.SelectorExpr{X: ast.NewIdent("vchan"), Sel: ast.NewIdent("Send")}, Args: []ast.Expr{n.Chan, n.Value}}})
+			rw.stats.ChanOps++
+			rw.usedVchan = true
+		case *ast.UnaryExpr:
+			if n.Op == token.ARROW && chanModelOn {
+				fn := "Recv1"
+				if rw.recv2[n] {
+					fn = "Recv2"
+				}
+				c.Replace(&ast.CallExpr{Fun: &ast.SelectorExpr{X: ast.NewIdent("vchan"), Sel: ast.NewIdent(fn)}, Args: []ast.Expr{n.X}})
+				rw.stats.ChanOps++
+				rw.usedVchan = true
+			}
+		case *ast.RangeStmt:
+			tv, ok := info.Types[n.X]
+			if !ok {
+				return true
+			}
+			if _, isChan := tv.Type.Underlying().(*types.Chan); !isChan || !chanModelOn {
+				return true
+			}
+			// for k := range ch { body }  =>  for { k, verifOk := vchan.Recv2(ch); if !verifOk { break }; body }
+			recv := &ast.CallExpr{Fun: &ast.SelectorExpr{X: ast.NewIdent("vchan"), Sel: ast.NewIdent("Recv2")}, Args: []ast.Expr{n.X}}
+			var key ast.Expr = ast.NewIdent("_")
+			if n.Key != nil {
+				key = n.Key
+			}
+			var head []ast.Stmt
+			if n.Tok == token.ASSIGN {
+				head = append(head, &ast.DeclStmt{Decl: &ast.GenDecl{Tok: token.VAR, Specs: []ast.Spec{&ast.ValueSpec{Names: []*ast.Ident{ast.NewIdent("verifOk")}, Type: ast.NewIdent("bool")}}}},
+					&ast.AssignStmt{Lhs: []ast.Expr{key, ast.NewIdent("verifOk")}, Tok: token.ASSIGN, Rhs: []ast.Expr{recv}})
+			} else {
+				head = append(head, &ast.AssignStmt{Lhs: []ast.Expr{key, ast.NewIdent("verifOk")}, Tok: token.DEFINE, Rhs: []ast.Expr{recv}})
+			}
+			head = append(head, &ast.IfStmt{Cond: &ast.UnaryExpr{Op: token.NOT, X: ast.NewIdent("verifOk")}, Body: &ast.BlockStmt{List: []ast.Stmt{&ast.BranchStmt{Tok: token.BREAK}}}})
+			c.Replace(&ast.ForStmt{Body: &ast.BlockStmt{List: append(head, n.Body.List...)}})
+			rw.stats.ChanOps++
+			rw.usedVchan = true
 		case *ast.GoStmt:
 			// go f(a, b)  =>  { a0, a1 := a, b; vrt.Go(func() { f(a0, a1) }) }
 			var names []ast.Expr
@@ -289,6 +346,22 @@ func (rw *rewriter) file(f *ast.File) {
 			rw.stats.GoStatements++
 			rw.usedVrt = true
 		case *ast.CallExpr:
+			if id, ok := n.Fun.(*ast.Ident); ok && len(n.Args) == 1 {
+				if _, builtin := info.Uses[id].(*types.Builtin); builtin && chanModelOn && (id.Name == "close" || id.Name == "len") {
+					if tv, ok := info.Types[n.Args[0]]; ok {
+						if _, isChan := tv.Type.Underlying().(*types.Chan); isChan {
+							name := "Close"
+							if id.Name == "len" {
+								name = "Len"
+							}
+							n.Fun = &ast.SelectorExpr{X: ast.NewIdent("vchan"), Sel: ast.NewIdent(name)}
+							rw.stats.ChanOps++
+							rw.usedVchan = true
+							return true
+						}
+					}
+				}
+			}
 			sel, ok := n.Fun.(*ast.SelectorExpr)
 			if !ok || !imageMethods[sel.Sel.Name] {
 				return true
@@ -400,6 +473,20 @@ func Generate(repoDir, outDir, shimDir string) (overlayPath string, st Stats, er
 	// init assigns them)
 	atomicStructs = map[types.Object]bool{}
 	atomicFields = map[types.Object]bool{}
+	// a select statement anywhere switches the channel model off altogether: the
+	// operations inside its cases cannot be rewritten, and a channel used both
+	// through the model and for real would be two different channels
+	chanModelOn = true
+	for _, p := range pkgs {
+		for _, f := range p.Syntax {
+			ast.Inspect(f, func(m ast.Node) bool {
+				if _, ok := m.(*ast.SelectStmt); ok {
+					chanModelOn = false
+				}
+				return true
+			})
+		}
+	}
 	mutableVars := map[*types.Var]bool{}
 	initAssigned := map[*types.Var]bool{}
 	_ = initAssigned
@@ -625,7 +712,7 @@ func Generate(repoDir, outDir, shimDir string) (overlayPath string, st Stats, er
 		needImports := map[string]string{}
 		for i, f := range p.Syntax {
 			path := p.CompiledGoFiles[i]
-			rw := &rewriter{fset: p.Fset, pkg: p, globals: globals, locals: localsByPkg[p], elems: elems, handled: map[ast.Node]bool{}, stats: &st}
+			rw := &rewriter{fset: p.Fset, pkg: p, globals: globals, locals: localsByPkg[p], elems: elems, handled: map[ast.Node]bool{}, stats: &st, recv2: map[ast.Node]bool{}}
 			// sync import -> shim
 			for _, im := range f.Imports {
 				if im.Path.Value == `"sync"` {
@@ -655,26 +742,11 @@ func Generate(repoDir, outDir, shimDir string) (overlayPath string, st Stats, er
 			// channel operations are not modelled: a goroutine blocked on a channel
 			// looks runnable to the scheduler. Record them; the check then skips
 			// interleaving exploration instead of hanging or reporting nonsense.
+			// select statements are not modelled (the other channel operations are):
+			// with one present the check skips interleaving exploration
 			ast.Inspect(f, func(m ast.Node) bool {
-				pos := token.NoPos
-				switch x := m.(type) {
-				case *ast.SendStmt:
-					pos = x.Pos()
-				case *ast.SelectStmt:
-					pos = x.Pos()
-				case *ast.UnaryExpr:
-					if x.Op == token.ARROW {
-						pos = x.Pos()
-					}
-				case *ast.RangeStmt:
-					if tv, ok := p.TypesInfo.Types[x.X]; ok {
-						if _, isChan := tv.Type.Underlying().(*types.Chan); isChan {
-							pos = x.Pos()
-						}
-					}
-				}
-				if pos != token.NoPos {
-					st.Channels = append(st.Channels, p.Fset.Position(pos).String())
+				if x, ok := m.(*ast.SelectStmt); ok {
+					st.Channels = append(st.Channels, p.Fset.Position(x.Pos()).String()+" (select)")
 				}
 				return true
 			})
@@ -711,6 +783,9 @@ func Generate(repoDir, outDir, shimDir string) (overlayPath string, st Stats, er
 			}
 			if rw.usedVrt {
 				astutil.AddNamedImport(p.Fset, f, "vrt", vrtPath)
+			}
+			if rw.usedVchan {
+				astutil.AddNamedImport(p.Fset, f, "vchan", vchanPath)
 			}
 			var buf bytes.Buffer
 			buf.WriteString("//go:build go1.18\n\n")
@@ -854,6 +929,9 @@ func Generate(repoDir, outDir, shimDir string) (overlayPath string, st Stats, er
 	if err := addDir(filepath.Join(shimDir, "_shim", "vatomic"), filepath.Join(repoDir, "zverif", "vatomic")); err != nil {
 		return "", st, err
 	}
+	if err := addDir(filepath.Join(shimDir, "_shim", "vchan"), filepath.Join(repoDir, "zverif", "vchan")); err != nil {
+		return "", st, err
+	}
 	if err := addDir(filepath.Join(shimDir, "_harness"), filepath.Join(repoDir, "zverif", "harness")); err != nil {
 		return "", st, err
 	}
@@ -888,6 +966,8 @@ func Generate(repoDir, outDir, shimDir string) (overlayPath string, st Stats, er
 // passed by address to a sync/atomic function somewhere in the instrumented
 // packages (`atomic.LoadUint32(&t.state)`): they carry a synchronisation object
 // just as much as a struct with a sync.Mutex field does.
+var chanModelOn = true
+
 var atomicStructs = map[types.Object]bool{}
 
 // atomicFields: the fields themselves (accessed through sync/atomic, not hooked as plain memory).
